@@ -79,9 +79,9 @@ func parseRange(p string) (begin int, end int) {
 
 // ParseTransport 解析Setup中的传输配置
 func (t *RTPTransport) ParseTransport(rtpType int, ts string) (err error) {
-	if t.Mode == UnknownSession {
-		t.Mode = PlaySession
-	}
+	// 每次 SETUP 未指定 mode 时默认为 play(RFC 2326 12.39)；
+	// 不能沿用上一次(可能已被拒绝的) SETUP 留下的 mode
+	t.Mode = PlaySession
 
 	// 确定传输类型
 	index := strings.IndexByte(ts, ';')
